@@ -58,8 +58,10 @@ def sched_label(s):
 def offers_clone(searcher):
     if searcher is None:
         return False
-    from syne_tune.optimizer.schedulers.searchers import BaseSearcher
-    return type(searcher).clone_from_state is not BaseSearcher.clone_from_state
+    # the property names the searchers that offer the facility (RegularizedEvolution overrides clone_from_state only to
+    # raise NotImplementedError, i.e. it does not offer it)
+    from syne_tune.optimizer.schedulers.searchers import RandomSearcher, GridSearcher, GPFIFOSearcher
+    return isinstance(searcher, (RandomSearcher, GridSearcher, GPFIFOSearcher))
 
 
 def driver_clone(w, sched):
@@ -268,6 +270,8 @@ def pick(evs, policy, step):
         return non_s[0] if non_s else evs[0]
     if policy == "X":      # rotate through the alphabet
         return evs[(step * 2 + 1) % len(evs)]
+    if policy == "N":      # start whenever a worker is free, else advance the newest running trial (old trials stay pending)
+        return evs[0] if evs[0][0] == "S" else evs[-1]
     if policy == "L":      # last running trial first
         return evs[-1]
     raise ValueError(policy)
@@ -306,7 +310,8 @@ def classify(o_orig, o_twin):
     return "continuation-differs:%s->%s" % (o_orig[0], o_twin[0])
 
 
-FLOAT_TOL = 1e-5
+FLOAT_TOL = 1e-11  # measured on the unchanged tree: <= 4e-14 (quick), see max_accepted_relative_deviation in the evidence
+MAXDEV = [0.0]  # largest relative deviation accepted
 NEAR = [0]  # number of observations accepted by the tolerance (reported in coverage)
 
 
@@ -333,6 +338,7 @@ def same_obs(a, b):
             return False  # integers must agree exactly
         if not abs(fa - fb) <= FLOAT_TOL * max(1.0, abs(fa), abs(fb)):
             return False
+        MAXDEV[0] = max(MAXDEV[0], abs(fa - fb) / max(1.0, abs(fa), abs(fb)))
     NEAR[0] += 1
     return True
 
